@@ -16,11 +16,11 @@ P = {
   note="Trusted base: spec/grammar.go. History length bounded by 64 (state is <= 9 bytes; any state is one Set per metric away).", ref="4 C02"),
  "C03": dict(
   technique="complete enumeration of the effective class space against an exact (math/big.Rat) executable specification; rapid lifts into the raw space",
-  text="All 16,588,800 effective classes of v3.0 and of v3.1 (2,592 base x CR/IR/AR x E/RL/RC) are evaluated on every run and BaseScore, TemporalScore, EnvironmentalScore compared exactly, Impact/Exploitability within 1e-9, against the FIRST equations evaluated in rational arithmetic (each version with its own ModifiedImpact formula). Every base combination x every pair of Modified metric values (exhaustive, 1.4 million cases per version), a Modified-metric grid and 50k random raw assignments lift the result to the raw space. exhaustive=true for the class part.",
+  text="All 16,588,800 effective classes of v3.0 and of v3.1 (2,592 base x CR/IR/AR x E/RL/RC) are evaluated on every run - twice: with the effective values in the base metrics, and with every Modified metric holding the effective value over different base values, so that every mod() call is exercised in both directions - and BaseScore, TemporalScore, EnvironmentalScore compared exactly, Impact/Exploitability within 1e-9, against the FIRST equations evaluated in rational arithmetic (each version with its own ModifiedImpact formula). Every base combination x every pair of Modified metric values (exhaustive, 1.4 million cases per version), a Modified-metric grid and 50k random raw assignments lift the result to the raw space. exhaustive=true for the class part.",
   note="Trusted base: spec/score3.go (weights and equations transcribed from the specifications; self-tests show real-number Roundup == Appendix A algorithm on the whole domain).", ref="4 C03"),
  "C04": dict(
   technique="complete enumeration of the 15,116,544 effective classes against an exact integer-arithmetic executable specification; rapid lifts with corner profiles",
-  text="Every effective class (all 270 MacroVectors reached) is scored on every run and compared exactly with the section 8.2 algorithm written over metric letters (exact fraction of tenths, rounded half-up). Every base combination x every single Modified metric value (exhaustive, 3.9 million cases) and 50k random raw objects with Modified overrides, explicit X, supplemental metrics and the two all-None corner profiles lift the result. Found two genuine defects (F1, F2), both repaired by fix: commits.",
+  text="Every effective class (all 270 MacroVectors reached) is scored on every run, twice (effective values in the base metrics; in the Modified metrics over different base values), and compared exactly with the section 8.2 algorithm written over metric letters (exact fraction of tenths, rounded half-up). Every base combination x every single Modified metric value (exhaustive, 3.9 million cases) and 50k random raw objects with Modified overrides, explicit X, supplemental metrics and the two all-None corner profiles lift the result. Found two genuine defects (F1, F2), both repaired by fix: commits.",
   note="Trusted base: spec/score4.go and the frozen 270-entry lookup table spec/v4lookup.go (SHA-256 pinned; depths recomputed by enumeration; 866,384 exact ties as the property states; oracle monotone on all 149,905,728 neighbour pairs).", ref="4 C04"),
  "C05": dict(
   technique="complete enumeration of all 139,968,000 v2.0 assignments against an exact (math/big.Rat) executable specification with tie sets",
